@@ -1,4 +1,5 @@
 import IceModel.AgentCore
+import IceProofs.AgentAuto
 /-!
 # Frame lemmas for C02: what the timer-driven part of the model never touches
 
@@ -174,11 +175,32 @@ theorem frame_validate_keepalive (a : Agent) (now : Nat) :
   · exact h.trans (frame_keepalive _ _)
   · exact h
 
+theorem frame_autoRenom (a : Agent) (now : Nat) : Frame a (a.autoRenom now).1 := by
+  refine IceProofs.Auto.autoRenom_parts (P := fun x => Frame a x.1) ?_ a (Frame.refl a)
+  exact {
+    mark := fun b _ id _ h _ _ => h.trans (frame_modPair b id _)
+    ping := fun b _ l r h _ _ => h.trans (frame_ping b now l r)
+    time := fun _ _ h => h.trans (Frame.of_fields rfl rfl rfl rfl rfl (fun _ h => h))
+    count := fun _ _ h => h.trans (Frame.of_fields rfl rfl rfl rfl rfl (fun _ h => h))
+    issue := fun b _ l r nom h _ _ _ _ _ => h.trans (frame_sendRequest b now l r true nom)
+    log := fun _ _ _ h => h.trans (Frame.of_fields rfl rfl rfl rfl rfl (fun _ h => h)) }
+
+theorem frame_validate_keepalive_auto (a : Agent) (now : Nat) :
+    Frame a (let (a, o, ok) := a.validateSelected now
+      if ok then let (a, o') := a.keepalive now; let (a, o'') := a.autoRenom now; (a, o ++ o' ++ o'') else (a, o)).1 := by
+  have h := frame_validateSelected a now
+  generalize a.validateSelected now = x at *
+  obtain ⟨a1, o, ok⟩ := x
+  dsimp only
+  split
+  · exact (h.trans (frame_keepalive _ _)).trans (frame_autoRenom _ _)
+  · exact h
+
 theorem frame_contactCandidates (a : Agent) (now : Nat) : Frame a (a.contactCandidates now).1 := by
   unfold Agent.contactCandidates
   split
   · split
-    · exact frame_validate_keepalive a now
+    · exact frame_validate_keepalive_auto a now
     · split
       · exact frame_nominate _ _ _
       · split
